@@ -7,7 +7,7 @@ from vf import gen, refmodel as R
 from vf.common import Sub, require
 
 PROPERTY = "C03"
-RULE = ("Generated: state type (3) x n 1..3 (pure: ..4 thorough) x nh 1..4 x na 1..3, parameters with per-tensor scale <= 2 and "
+RULE = ("Generated: state type (3) x n 1..3 (thorough: ..4) x nh 1..4 x na 1..3, parameters with per-tensor scale <= 2 and "
         "all biases drawn non-zero, a dataset of 1..8 rows each with its own basis string drawn from the enumerated {X,Y,Z}^n "
         "(first row all-Z, second row rotated when N>=2, repeats likely), outcomes drawn by inverse CDF from the reference Born "
         "distribution in the row's basis, a row permutation and a split point. Oracle A: torch.autograd gradient of the reference "
@@ -22,7 +22,7 @@ ASSUMPTIONS = ["parameter scale <= 2 (the gradient of -log p is ill-conditioned 
 @st.composite
 def cases(draw, tier):
     t = draw(st.sampled_from(gen.TYPES))
-    nmax = 3 if (t == "density" or tier == "quick") else 4
+    nmax = 3 if tier == "quick" else 4      # the property's quantifier goes to num_visible = 4 (thorough tier, all three types)
     sc = draw(gen.state_case(types=[t], n=(1, nmax), nh=(1, 4), na=(1, 3), scales=[0.05, 0.5, 0.5, 2.0, 2.0], bound=60.0))
     n = sc["n"]
     N = draw(st.integers(1, 8))
